@@ -72,6 +72,14 @@ def r1(R, repo):
       R.ok(key, (u, s.stmt))
     else:
       R.unsure(key, (u, s.stmt), 'cannot tell whether `%s` copies the collection' % astu.short(val))
+  for s in stores:
+    if s in mut_stores:
+      continue
+    if evid.raw3(u, s.stmt.value, v, ('unfreeze', 'deepcopy')) == evid.RAW:
+      g_ = evid.guarded(c, s, is_test, negative=True)
+      R.check(g_ == 'yes', key_of(u, 'uncopied store only for collections not selected by mutable'), (u, s.stmt),
+              '`%s` binds the caller\'s own collection object into the scope; that is allowed only when in_filter(mutable, key) is false, but the statement is reached on the path %s - '
+              'a collection selected by `mutable` would then be written in place in the caller\'s variables' % (astu.short(s.stmt), evid.guard_witness(c, s, is_test, negative=True)), evidence=(g_ == 'bypass'))
   head = loops[0]
   firsts = [m for m, lab in c.succ[head] if lab == 'T']
   ok = len(mut_stores) >= 1 and all(s in stores or head not in c.reach([s], avoid=stores) for s in firsts)
@@ -622,5 +630,6 @@ meta('C01',
          Mutant('C01-m9', MO, "    return apply(\n      method,\n      self,\n      mutable=mutable,\n      capture_intermediates=capture_intermediates,\n    )(variables, *args, **kwargs, rngs=rngs)",
                 "    return apply(\n      method,\n      self,\n      mutable=mutable,\n    )(variables, *args, **kwargs, rngs=rngs)", 'C01.R7'),
          Mutant('C01-m10', MO, "    del args\n    scope = core.bind(", "    del args\n    object.__setattr__(self, 'parent', None)\n    scope = core.bind(", 'C01.R5'),
+         Mutant('C01-m12', SC, "    if in_filter(mutable, key):\n      new_variables[key] = unfreeze(value)", "    if in_filter(mutable, key) and isinstance(value, FrozenDict):\n      new_variables[key] = unfreeze(value)", 'C01.R1', why='seed C01-C (round 2)'),
          Mutant('C01-b1', SC, "  new_variables = _unfreeze_variables(variables, mutable)\n  return Scope(new_variables, rngs=rngs, mutable=mutable, flags=flags)", "  fresh = _unfreeze_variables(variables, mutable)\n  scope = Scope(fresh, rngs=rngs, mutable=mutable, flags=flags)\n  return scope", kind='benign'),
      ])
